@@ -413,7 +413,8 @@ impl<'a> Ex<'a> {
                 if len == 0 {
                     (None, Some(i), cls)
                 } else if self.m.areas[i].prot & need == need {
-                    (Some(true), Some(i), cls)
+                    // a non-default mask was involved: the verdict belongs to C09
+                    (Some(true), Some(i), if self.m.areas[i].prot & 3 != 3 { if need == 2 { "write_only" } else { "masked" } } else { cls })
                 } else {
                     (Some(false), Some(i), "denied")
                 }
@@ -442,7 +443,7 @@ impl<'a> Ex<'a> {
     }
 
     fn verdict_prop(cls: &str) -> &'static str {
-        if cls == "denied" {
+        if cls == "denied" || cls == "write_only" || cls == "masked" {
             "C09"
         } else {
             "C08"
@@ -517,7 +518,7 @@ impl<'a> Ex<'a> {
             let off = (addr - a.start) as usize;
             a.data[off..off + len as usize].copy_from_slice(&data);
         }
-        let p2 = if cls == "denied" { "C09" } else { "C08" };
+        let p2 = Self::verdict_prop(cls);
         self.check_areas(p2, &format!("{p2}|{name}|{}", if r.is_ok() { "wrote_other_bytes" } else { "failed_write_changed_memory" }), &format!("after {name}({addr:#x}, {len} bytes) -> {}", r.class()));
     }
 
@@ -615,7 +616,7 @@ impl<'a> Ex<'a> {
             self.ctx.dev("C08", format!("C08|{name}|flags_changed"), "a MOV changed the flags".into());
         }
         self.check_regs("C08", &format!("C08|{name}|{cls}"), &format!("after {name} at {addr:#x} -> {oc}"));
-        let p2 = if cls == "denied" { "C09" } else { "C08" };
+        let p2 = Self::verdict_prop(cls);
         self.check_areas(p2, &format!("{p2}|{name}|{}", if ok { "wrote_other_bytes" } else { "failed_access_changed_memory" }), &format!("after {name} at {addr:#x} -> {oc}"));
     }
 
